@@ -6,7 +6,7 @@
 import Lungo.Spec.SeqDB
 import Lungo.Proofs.IndexMgmt
 import Lungo.Proofs.FindLaws
-namespace Lungo.C01
+namespace Lungo.SeqRef
 open Lungo Lungo.Spec
 
 variable {sch : SchemaEval}
@@ -224,4 +224,4 @@ theorem select_abs (c : Coll) (q : Doc) (sort : Option Doc) (skip limit : Int)
         simp only [Except.map, Except.ok.injEq] at h3
         rw [h3]
 
-end Lungo.C01
+end Lungo.SeqRef
